@@ -527,3 +527,98 @@ def t_generate_sessions():
     info = {"function": QG + " (per configured session, without the event-creation part)", "source_sha": get_src().source_hash(QG), "where": get_src().where(QG), "paths": n,
             "assumptions": sorted(ex.used_assumptions)}
     return {"obligations": obl, "info": [info]}
+
+
+# ----------------------------------------------------------------------------- _generate_sessions: every configured event gets its OWN deferred set-up and hook registration (C13; C14-C16 act through it)
+@task(QG + "[event]", props=["C13", "C14", "C15", "C16"], functions=[QG], replay="whole_run")
+def t_generate_events():
+    """for one configured event: the object is created for this session, two deferred steps are queued -- its setup with its own settings, and a registration step
+    that, WHEN IT RUNS LATER (after the loop variables have moved on to other events), asks THIS event for its hooks and registers each of them once"""
+    fn = get_src().funcs[QG][0]
+    loops = find_loops(fn, target_name="event_name", kind=ast.For)
+    if len(loops) != 1:
+        raise Unsupported(f"anchor-lost: `for event_name in ...` of {QG}")
+    body = loops[0].body
+    start = [i for i, s_ in enumerate(body) if isinstance(s_, ast.Assign) and isinstance(s_.targets[0], ast.Name) and s_.targets[0].id == "event"]
+    if not start:
+        raise Unsupported(f"anchor-lost: `event = event_class(...)` of {QG}")
+    stmts = body[start[0]:]
+    runner = sym_obj("SequentialRunner", "runner")
+    session = sym_obj("Session", "the_session")
+    setting = V(("dict", ("str",), ("dyn",)), z3.Const("event_setting", REF))
+    created = []
+
+    def ctor(ex, st, clsv, pos, kw, node):
+        st = st.copy()
+        ev = V(("ref", "EventABC"), st.new_ref("event"))
+        st.assume(is_instance("EventABC", ev.term))
+        created.append((ev, dict(kw)))
+        return [(st, ev)]
+    pending = []
+
+    def pend(ex, st, recv, n, v):
+        pending.append(v)
+    env = {"self": runner, "session": session, "event_setting": setting, "event_name": V(("str",), z3.Const("event_name", z3.StringSort())),
+           "i_event": V(("int",), z3.Const("i_event", z3.IntSort())), "event_class": V(("class",), None, py=None)}
+    specs = {("ctor", "*"): ctor, ("hook", "tuple-append", QG): pend}
+    ex, st0, outs, obl = run_block(QG, stmts, env, specs=specs, label=QG + "[event]")
+    n = 0
+    for s1, kind, val in outs:
+        if kind == "raise":
+            s1.oblige(f"no-raise:{val[0]}@{val[1]}", z3.BoolVal(False), "no-raise"); continue
+        n += 1
+        if len(created) != 1 or len(pending) != 2:
+            s1.oblige(f"trace:one event object and two deferred steps per configured event (got {len(created)} objects, {len(pending)} steps)", z3.BoolVal(False), "trace"); continue
+        ev, kw = created[0]
+        s1.oblige("post:C13 the event is created for this session and this simulator, with the running event id",
+                  z3.And(kw["session"].term == session.term, kw["simulator"].term == s1.read(runner, "simulator").term, kw["event_id"].term == env["i_event"].term), "post")
+        first, second = pending
+        ok_shape = first.ty[0] == "tuple" and second.ty[0] == "tuple" and len(first.py) == 2 and len(second.py) == 2
+        if not ok_shape:
+            s1.oblige("trace:the deferred steps are (callable, keyword arguments) pairs", z3.BoolVal(False), "trace"); continue
+        f1, k1 = first.py
+        s1.oblige("post:the first deferred step is this event's own setup with this event's settings",
+                  z3.BoolVal(f1.ty[0] == "func" and f1.py[0] == "bound" and f1.py[2] == "setup") if f1.py and f1.py[0] == "bound" else z3.BoolVal(False), "post")
+        if f1.py and f1.py[0] == "bound":
+            s1.oblige("post:the setup step is bound to the event just created and receives its settings", z3.And(f1.py[1].term == ev.term, k1.py["settings"].term == setting.term) if (k1.ty[0] == "kwdict" and "settings" in k1.py) else z3.BoolVal(False), "post")
+        # run the second deferred step LATER: the loop variables of the enclosing loops now belong to another event
+        f2, k2 = second.py
+        if not (f2.ty[0] == "func" and f2.py and f2.py[0] == "def"):
+            s1.oblige("trace:the second deferred step is the hook-registration closure", z3.BoolVal(False), "trace"); continue
+        if k2.ty[0] != "kwdict":
+            k2 = V(("kwdict",), py={})          # a `{}` literal: no keyword arguments (a non-empty plain dict would make the call below fail on a missing parameter)
+        cenv = f2.py[2]
+        other = V(("ref", "EventABC"), s1.new_ref("later_event"))
+        for nm in ("event", "event_name", "event_setting", "event_class"):
+            if nm in cenv and nm == "event":
+                cenv[nm] = other
+        regs = []
+
+        def hookreg(ex2, st2, recv, pos, kw_, node):
+            st2 = st2.copy()
+            regs.append(recv)
+            hs = st2.new_list(("ref", "EventHook"), "hooks")
+            nh = z3.Const(fresh_name("n_hooks"), z3.IntSort()); st2.assume(nh >= 0); st2.set_len(hs.term, nh)
+            st2.ghost["hooks_list"] = hs.term
+            return [(st2, hs)]
+        ex.specs[("m", "EventABC", "hook_registration")] = hookreg
+        ex.specs[("m", "Simulator", "_add_event")] = emit("AddEvent")
+        inner_for = [nn for nn in ast.walk(f2.py[1]) if isinstance(nn, ast.For)]
+        if len(inner_for) != 1:
+            s1.oblige("trace:the registration step has exactly one loop, over the hooks returned by the event", z3.BoolVal(False), "trace"); continue
+        inner_for[0]._pyvc_key = (QG, "register-each-hook")
+        ex.loops[(QG, "register-each-hook")] = ForEachTrace(name="register-each-hook", elem_type=("ref", "EventHook"))
+        s2 = s1.copy(); s2.trace = []
+        later = ex.call_closure(f2, [], dict(k2.py), s2, 0)
+        for s3, _v in later:
+            if len(regs) != 1:
+                s3.oblige(f"trace:the deferred step asks exactly one event for its hooks (got {len(regs)})", z3.BoolVal(False), "trace"); continue
+            s3.oblige("post:C13 the deferred registration asks THIS event (not whichever event the loop reached last) for its hooks", regs[0].term == ev.term, "post")
+            fe = [t for t in s3.trace if t[0] == "ForEach"]
+            okfe = len(fe) == 1 and len(fe[0][2][1]) == 1 and fe[0][2][1][0][0] == "AddEvent"
+            s3.oblige("trace:C13 every hook the event returns is registered exactly once (one _add_event per element of the returned list)",
+                      z3.And(fe[0][2][0] == s3.ghost["hooks_list"], fe[0][2][1][0][2][-1] == ELEM) if okfe else z3.BoolVal(False), "trace")
+    obl.append({"name": QG + "[event]/cover:paths", "pc": [], "goal": z3.BoolVal(n >= 1), "kind": "cover"})
+    info = {"function": QG + " (per configured event: creation and the two deferred steps)", "source_sha": get_src().source_hash(QG), "where": get_src().where(QG), "paths": n,
+            "assumptions": sorted(ex.used_assumptions | {"the event class is resolved by find_class (bounded stand-in) and constructed with keyword arguments"})}
+    return {"obligations": obl, "info": [info]}
